@@ -1,7 +1,9 @@
 /-
-  Hs.Lemmas.NsWl — the stack-of-vectors work-list loop `wl` (model of `all_supertypes_of` / `all_subtypes_of`)
-  computes exactly the transitive closure of `next`, and terminates on ranked (acyclic) relations within an
-  explicit fuel bound.  Generic in the node type and the successor function.
+  Hs.Lemmas.NsWl — the stack-of-vectors work-list loop `wl` (model of `all_supertypes_of` / `all_subtypes_of`,
+  which expand a def only the first time it is inserted into the result set) computes exactly the transitive
+  closure of `next`, and terminates on EVERY relation over a finite universe - cyclic or not - within an explicit
+  fuel bound (`wl_terminates`: stack height + number of nodes of the universe not yet collected).
+  Generic in the node type and the successor function.
 -/
 import Hs.Model.Ns
 import Mathlib.Logic.Relation
@@ -66,8 +68,18 @@ def Succ (a b : α) : Prop := b ∈ next a
 def push1 (d : α) (st : List (List α)) : List (List α) :=
   if (next d).isEmpty && !pe then st else next d :: st
 
-theorem forBody_cons (d : α) (ds : List α) (st : List (List α)) (acc : List α) :
-    forBody next pe (d :: ds) st acc = forBody next pe ds (push1 next pe d st) (insertSet d acc) := rfl
+/-- the def was already collected: `insert` answers `false`, nothing is pushed -/
+theorem forBody_cons_old (d : α) (ds : List α) (st : List (List α)) (acc : List α) (h : d ∈ acc) :
+    forBody next pe (d :: ds) st acc = forBody next pe ds st acc := by
+  simp only [forBody, h, if_true]
+
+/-- the def is new: it is collected and the vector of its successors is pushed -/
+theorem forBody_cons_new (d : α) (ds : List α) (st : List (List α)) (acc : List α) (h : ¬ d ∈ acc) :
+    forBody next pe (d :: ds) st acc = forBody next pe ds (push1 next pe d st) (insertSet d acc) := by
+  simp only [forBody, h, if_false, push1]
+
+theorem insertSet_of_mem {d : α} {acc : List α} (h : d ∈ acc) : insertSet d acc = acc := by
+  simp [insertSet, h]
 
 theorem mem_push1 {d : α} {st : List (List α)} {v : List α} (h : v ∈ push1 next pe d st) :
     v = next d ∨ v ∈ st := by
@@ -119,37 +131,56 @@ theorem forBody_inv {T : α → Prop} (hT : ∀ x, T x → ∀ y ∈ next x, T y
         · exact Or.inr ⟨v, hv, hxv⟩
   | cons d ds ih =>
     intro st acc h
-    rw [forBody_cons]
-    apply ih
     have hTd : T d := h.stT _ List.mem_cons_self d List.mem_cons_self
-    -- re-home a node that was covered before
-    have rehome : ∀ y, (y ∈ acc ∨ ∃ v ∈ (d :: ds) :: st, y ∈ v) →
-        (y ∈ insertSet d acc ∨ ∃ v ∈ ds :: push1 next pe d st, y ∈ v) := by
-      intro y hy
-      rcases hy with h1 | ⟨v, hv, hyv⟩
-      · exact Or.inl (mem_insertSet.2 (Or.inr h1))
-      · rcases List.mem_cons.1 hv with rfl | hv
-        · rcases List.mem_cons.1 hyv with rfl | hyv
-          · exact Or.inl (mem_insertSet.2 (Or.inl rfl))
-          · exact Or.inr ⟨ds, List.mem_cons_self, hyv⟩
-        · exact Or.inr ⟨v, List.mem_cons_of_mem _ (sub_push1 next pe hv), hyv⟩
-    refine ⟨?_, ?_, ?_, ?_⟩
-    · intro x hx
-      rcases mem_insertSet.1 hx with rfl | hx
-      · exact hTd
-      · exact h.accT x hx
-    · intro v hv x hx
+    by_cases hd : d ∈ acc
+    · -- already collected: the def leaves the stack and stays in the result set
+      rw [forBody_cons_old next pe d ds st acc hd]
+      apply ih
+      have rehome : ∀ y, (y ∈ acc ∨ ∃ v ∈ (d :: ds) :: st, y ∈ v) → (y ∈ acc ∨ ∃ v ∈ ds :: st, y ∈ v) := by
+        intro y hy
+        rcases hy with h1 | ⟨v, hv, hyv⟩
+        · exact Or.inl h1
+        · rcases List.mem_cons.1 hv with rfl | hv
+          · rcases List.mem_cons.1 hyv with rfl | hyv
+            · exact Or.inl hd
+            · exact Or.inr ⟨ds, List.mem_cons_self, hyv⟩
+          · exact Or.inr ⟨v, List.mem_cons_of_mem _ hv, hyv⟩
+      refine ⟨h.accT, ?_, fun x hx => rehome x (h.cover0 x hx), fun x hx y hy => rehome y (h.closed x hx y hy)⟩
+      intro v hv x hx
       rcases List.mem_cons.1 hv with rfl | hv
       · exact h.stT _ List.mem_cons_self x (List.mem_cons_of_mem _ hx)
-      · rcases mem_push1 next pe hv with rfl | hv
-        · exact hT d hTd x hx
-        · exact h.stT v (List.mem_cons_of_mem _ hv) x hx
-    · intro x hx
-      exact rehome x (h.cover0 x hx)
-    · intro x hx y hy
-      rcases mem_insertSet.1 hx with rfl | hx
-      · exact Or.inr ⟨next x, List.mem_cons_of_mem _ (next_in_push1 next pe hy), hy⟩
-      · exact rehome y (h.closed x hx y hy)
+      · exact h.stT v (List.mem_cons_of_mem _ hv) x hx
+    · -- new: collected, and its successors are stacked
+      rw [forBody_cons_new next pe d ds st acc hd]
+      apply ih
+      -- re-home a node that was covered before
+      have rehome : ∀ y, (y ∈ acc ∨ ∃ v ∈ (d :: ds) :: st, y ∈ v) →
+          (y ∈ insertSet d acc ∨ ∃ v ∈ ds :: push1 next pe d st, y ∈ v) := by
+        intro y hy
+        rcases hy with h1 | ⟨v, hv, hyv⟩
+        · exact Or.inl (mem_insertSet.2 (Or.inr h1))
+        · rcases List.mem_cons.1 hv with rfl | hv
+          · rcases List.mem_cons.1 hyv with rfl | hyv
+            · exact Or.inl (mem_insertSet.2 (Or.inl rfl))
+            · exact Or.inr ⟨ds, List.mem_cons_self, hyv⟩
+          · exact Or.inr ⟨v, List.mem_cons_of_mem _ (sub_push1 next pe hv), hyv⟩
+      refine ⟨?_, ?_, ?_, ?_⟩
+      · intro x hx
+        rcases mem_insertSet.1 hx with rfl | hx
+        · exact hTd
+        · exact h.accT x hx
+      · intro v hv x hx
+        rcases List.mem_cons.1 hv with rfl | hv
+        · exact h.stT _ List.mem_cons_self x (List.mem_cons_of_mem _ hx)
+        · rcases mem_push1 next pe hv with rfl | hv
+          · exact hT d hTd x hx
+          · exact h.stT v (List.mem_cons_of_mem _ hv) x hx
+      · intro x hx
+        exact rehome x (h.cover0 x hx)
+      · intro x hx y hy
+        rcases mem_insertSet.1 hx with rfl | hx
+        · exact Or.inr ⟨next x, List.mem_cons_of_mem _ (next_in_push1 next pe hy), hy⟩
+        · exact rehome y (h.closed x hx y hy)
 
 /-- the nodes the loop started from `v0` has to collect -/
 def Target (v0 : List α) (x : α) : Prop := ∃ s ∈ v0, ReflTransGen (Succ next) s x
@@ -224,7 +255,11 @@ theorem wl_nodup : ∀ (fuel : Nat) (st : List (List α)) (acc res : List α),
     intro ds
     induction ds with
     | nil => intro st acc h; exact h
-    | cons d ds ih => intro st acc h; rw [forBody_cons]; exact ih _ _ (nodup_insertSet h)
+    | cons d ds ih =>
+      intro st acc h
+      by_cases hd : d ∈ acc
+      · rw [forBody_cons_old next pe d ds st acc hd]; exact ih _ _ h
+      · rw [forBody_cons_new next pe d ds st acc hd]; exact ih _ _ (nodup_insertSet h)
   intro fuel
   induction fuel with
   | zero =>
@@ -240,107 +275,136 @@ theorem wl_nodup : ∀ (fuel : Nat) (st : List (List α)) (acc res : List α),
       simp only [wl] at hw
       exact ih _ _ res (hfb v st acc h) hw
 
-/-! ### termination on ranked relations -/
+/-! ### termination on EVERY relation over a finite universe
 
-variable (r : α → Nat) (B : Nat)
+The measure is `stack height + number of nodes of the universe that are not yet collected`: an iteration of the
+`while` loop pops one vector, and the `for` body pushes a vector only for a node that was not yet collected. -/
 
-/-- potential of one stacked vector / of the stack -/
-def phi (v : List α) : Nat := 1 + (v.map (fun d => B ^ r d)).sum
-def mu (st : List (List α)) : Nat := (st.map (phi r B)).sum
+/-- how many nodes of the universe `U` (a list, repetitions counted) are not yet in `acc` -/
+def unv (acc : List α) : List α → Nat
+  | [] => 0
+  | u :: us => (if u ∈ acc then 0 else 1) + unv acc us
 
-theorem sum_map_le_mul {β : Type} (l : List β) (f : β → Nat) (c : Nat) (h : ∀ x ∈ l, f x ≤ c) :
-    (l.map f).sum ≤ l.length * c := by
-  induction l with
-  | nil => simp
-  | cons a l ih =>
-    simp only [List.map_cons, List.sum_cons, List.length_cons]
-    have h1 := h a List.mem_cons_self
-    have h2 := ih (fun x hx => h x (List.mem_cons_of_mem _ hx))
-    rw [Nat.succ_mul]
-    omega
+theorem unv_nil (U : List α) : unv ([] : List α) U = U.length := by
+  induction U with
+  | nil => rfl
+  | cons u us ih => simp only [unv, List.not_mem_nil, if_false, ih, List.length_cons]; omega
 
-theorem phi_next_le (hr : ∀ a b, b ∈ next a → r b < r a) (hB : ∀ a, (next a).length + 1 ≤ B) (d : α) :
-    phi r B (next d) ≤ B ^ r d := by
-  have hB1 : 1 ≤ B := by have := hB d; omega
-  unfold phi
-  cases hnx : next d with
-  | nil => simpa using Nat.one_le_pow _ _ hB1
-  | cons b bs =>
-    have hb : r b < r d := hr d b (by rw [hnx]; exact List.mem_cons_self)
-    obtain ⟨k, hk⟩ : ∃ k, r d = k + 1 := ⟨r d - 1, by omega⟩
-    have hle : ∀ x ∈ b :: bs, B ^ r x ≤ B ^ k := by
-      intro x hx
-      have : r x < r d := hr d x (by rw [hnx]; exact hx)
-      exact Nat.pow_le_pow_right hB1 (by omega)
-    have h1 := sum_map_le_mul (b :: bs) (fun d => B ^ r d) (B ^ k) hle
-    have h2 : (b :: bs).length + 1 ≤ B := by rw [← hnx]; exact hB d
-    have h3 : 1 ≤ B ^ k := Nat.one_le_pow _ _ hB1
-    have h4 : ((b :: bs).length + 1) * B ^ k ≤ B * B ^ k := Nat.mul_le_mul_right _ h2
-    rw [hk, Nat.pow_succ, Nat.mul_comm (B ^ k) B]
-    rw [Nat.succ_mul] at h4
-    generalize (b :: bs).length * B ^ k = L at *
-    generalize B * B ^ k = Q at *
-    omega
+theorem unv_insert_le (d : α) (acc : List α) : ∀ U : List α, unv (insertSet d acc) U ≤ unv acc U := by
+  intro U
+  induction U with
+  | nil => exact Nat.le_refl _
+  | cons u us ih =>
+    simp only [unv]
+    by_cases hu : u ∈ acc
+    · have hu' : u ∈ insertSet d acc := mem_insertSet.2 (Or.inr hu)
+      simp only [hu, hu', if_true]; omega
+    · simp only [hu, if_false]
+      split <;> omega
 
-theorem mu_push1_le (hr : ∀ a b, b ∈ next a → r b < r a) (hB : ∀ a, (next a).length + 1 ≤ B)
-    (d : α) (st : List (List α)) : mu r B (push1 next pe d st) ≤ mu r B st + B ^ r d := by
-  unfold push1
-  split
+/-- collecting a NEW node of the universe lowers the count -/
+theorem unv_insert_lt {d : α} {acc : List α} (hd : ¬ d ∈ acc) :
+    ∀ U : List α, d ∈ U → unv (insertSet d acc) U + 1 ≤ unv acc U := by
+  intro U
+  induction U with
+  | nil => intro h; cases h
+  | cons u us ih =>
+    intro hdu
+    simp only [unv]
+    by_cases hud : u = d
+    · subst hud
+      have h1 : u ∈ insertSet u acc := mem_insertSet.2 (Or.inl rfl)
+      have h2 := unv_insert_le u acc us
+      simp only [h1, hd, if_true, if_false]; omega
+    · have hdus : d ∈ us := by
+        rcases List.mem_cons.1 hdu with h | h
+        · exact absurd h.symm hud
+        · exact h
+      have h2 := ih hdus
+      by_cases hu : u ∈ acc
+      · have hu' : u ∈ insertSet d acc := mem_insertSet.2 (Or.inr hu)
+        simp only [hu, hu', if_true]; omega
+      · have hu' : ¬ u ∈ insertSet d acc := by
+          intro h; rcases mem_insertSet.1 h with h | h
+          · exact hud h
+          · exact hu h
+        simp only [hu, hu', if_false]; omega
+
+variable (U : List α)
+
+/-- every stacked node belongs to the universe -/
+def InU (st : List (List α)) : Prop := ∀ v ∈ st, ∀ x ∈ v, x ∈ U
+
+theorem inU_push1 (hU : ∀ a, ∀ b ∈ next a, b ∈ U) (d : α) {st : List (List α)} (h : InU U st) :
+    InU U (push1 next pe d st) := by
+  intro v hv x hx
+  rcases mem_push1 next pe hv with rfl | hv
+  · exact hU d x hx
+  · exact h v hv x hx
+
+theorem length_push1_le (d : α) (st : List (List α)) : (push1 next pe d st).length ≤ st.length + 1 := by
+  unfold push1; split
   · omega
-  · have := phi_next_le next r B hr hB d
-    simp only [mu, List.map_cons, List.sum_cons] at *
-    omega
+  · simp
 
-theorem forBody_mu (hr : ∀ a b, b ∈ next a → r b < r a) (hB : ∀ a, (next a).length + 1 ≤ B) :
-    ∀ (ds : List α) (st : List (List α)) (acc : List α),
-      mu r B (forBody next pe ds st acc).1 ≤ mu r B st + (ds.map (fun d => B ^ r d)).sum := by
+/-- the `for` body keeps the stack inside the universe and does not raise the measure -/
+theorem forBody_measure (hU : ∀ a, ∀ b ∈ next a, b ∈ U) :
+    ∀ (ds : List α) (st : List (List α)) (acc : List α), (∀ x ∈ ds, x ∈ U) → InU U st →
+      InU U (forBody next pe ds st acc).1 ∧
+      (forBody next pe ds st acc).1.length + unv (forBody next pe ds st acc).2 U ≤ st.length + unv acc U := by
   intro ds
   induction ds with
-  | nil => intro st acc; simp [forBody]
+  | nil => intro st acc _ h; exact ⟨h, Nat.le_refl _⟩
   | cons d ds ih =>
-    intro st acc
-    rw [forBody_cons]
-    have h1 := ih (push1 next pe d st) (insertSet d acc)
-    have h2 := mu_push1_le next pe r B hr hB d st
-    simp only [List.map_cons, List.sum_cons]
-    omega
+    intro st acc hds hst
+    have hds' : ∀ x ∈ ds, x ∈ U := fun x hx => hds x (List.mem_cons_of_mem _ hx)
+    by_cases hd : d ∈ acc
+    · rw [forBody_cons_old next pe d ds st acc hd]
+      exact ih st acc hds' hst
+    · rw [forBody_cons_new next pe d ds st acc hd]
+      obtain ⟨h1, h2⟩ := ih (push1 next pe d st) (insertSet d acc) hds' (inU_push1 next pe U hU d hst)
+      refine ⟨h1, ?_⟩
+      have h3 := length_push1_le next pe d st
+      have h4 := unv_insert_lt hd U (hds d List.mem_cons_self)
+      omega
 
-/-- Termination: fuel at least the potential of the stack is enough. -/
-theorem wl_terminates (hr : ∀ a b, b ∈ next a → r b < r a) (hB : ∀ a, (next a).length + 1 ≤ B) :
-    ∀ (fuel : Nat) (st : List (List α)) (acc : List α), mu r B st ≤ fuel →
+/-- Termination, whatever the relation: fuel at least `stack height + uncollected nodes` is enough. -/
+theorem wl_terminates (hU : ∀ a, ∀ b ∈ next a, b ∈ U) :
+    ∀ (fuel : Nat) (st : List (List α)) (acc : List α), InU U st → st.length + unv acc U ≤ fuel →
       ∃ res, wl next pe fuel st acc = .ok res := by
   intro fuel
   induction fuel with
   | zero =>
-    intro st acc h
+    intro st acc _ h
     cases st with
     | nil => exact ⟨acc, rfl⟩
-    | cons v st =>
-      simp only [mu, phi, List.map_cons, List.sum_cons] at h
-      omega
+    | cons v st => simp only [List.length_cons] at h; omega
   | succ fuel ih =>
-    intro st acc h
+    intro st acc hst h
     cases st with
     | nil => exact ⟨acc, rfl⟩
     | cons v st =>
       simp only [wl]
-      apply ih
-      have h1 := forBody_mu next pe r B hr hB v st acc
-      simp only [mu, phi, List.map_cons, List.sum_cons] at h h1 ⊢
+      have hv : ∀ x ∈ v, x ∈ U := hst v List.mem_cons_self
+      have hst' : InU U st := fun w hw => hst w (List.mem_cons_of_mem _ hw)
+      obtain ⟨h1, h2⟩ := forBody_measure next pe U hU v st acc hv hst'
+      apply ih _ _ h1
+      simp only [List.length_cons] at h
       omega
 
-/-- The loop started on the successors of `s`, on a relation ranked below `K`, with fuel `≥ B^K`:
-it ends, and returns exactly the nodes reachable from `s` in one or more steps. -/
-theorem wl_spec (hr : ∀ a b, b ∈ next a → r b < r a) (hB : ∀ a, (next a).length + 1 ≤ B)
-    (K : Nat) (hK : ∀ a, r a ≤ K) (fuel : Nat) (hf : B ^ K ≤ fuel) (s : α) :
+/-- The loop started on the successors of `s`, on ANY relation whose successors lie in the finite universe `U`
+(cycles, self loops, diamonds - no ranking), with fuel `≥ |U| + 1`: it ends, and returns exactly the nodes
+reachable from `s` in one or more steps. -/
+theorem wl_spec (hU : ∀ a, ∀ b ∈ next a, b ∈ U) (fuel : Nat) (hf : U.length + 1 ≤ fuel) (s : α) :
     ∃ res, wl next pe fuel [next s] [] = .ok res ∧ res.Nodup ∧ ∀ x, x ∈ res ↔ TransGen (Succ next) s x := by
-  have hB1 : 1 ≤ B := by have := hB s; omega
-  have hmu : mu r B [next s] ≤ fuel := by
-    have h1 := phi_next_le next r B hr hB s
-    have h2 : B ^ r s ≤ B ^ K := Nat.pow_le_pow_right hB1 (hK s)
-    simp only [mu, List.map_cons, List.map_nil, List.sum_cons, List.sum_nil]
-    omega
-  obtain ⟨res, hres⟩ := wl_terminates next pe r B hr hB fuel [next s] [] hmu
+  have hst : InU U [next s] := by
+    intro v hv x hx
+    simp only [List.mem_singleton] at hv
+    subst hv
+    exact hU s x hx
+  have hmu : [next s].length + unv ([] : List α) U ≤ fuel := by
+    rw [unv_nil]; simp only [List.length_singleton]; omega
+  obtain ⟨res, hres⟩ := wl_terminates next pe U hU fuel [next s] [] hst hmu
   refine ⟨res, hres, wl_nodup next pe fuel _ _ res List.nodup_nil hres, fun x => ?_⟩
   rw [wl_exact next pe (next s) fuel _ _ res (winv_init next (next s)) hres x]
   rw [TransGen.head'_iff]
@@ -348,7 +412,13 @@ theorem wl_spec (hr : ∀ a b, b ∈ next a → r b < r a) (hB : ∀ a, (next a)
   · rintro ⟨b, hb, hbx⟩; exact ⟨b, hb, hbx⟩
   · rintro ⟨b, hb, hbx⟩; exact ⟨b, hb, hbx⟩
 
-/-- the same without ranking hypotheses: IF the loop ends its answer is the closure -/
+/-- the loop never reports divergence when it has that much fuel -/
+theorem wl_never_diverges (hU : ∀ a, ∀ b ∈ next a, b ∈ U) (fuel : Nat) (hf : U.length + 1 ≤ fuel) (s : α) :
+    wl next pe fuel [next s] [] ≠ .diverge := by
+  obtain ⟨res, h, _⟩ := wl_spec next pe U hU fuel hf s
+  rw [h]; intro hc; cases hc
+
+/-- the same for any fuel and without a universe: IF the loop ends its answer is the closure -/
 theorem wl_exact_of_ok (fuel : Nat) (s : α) (res : List α) (h : wl next pe fuel [next s] [] = .ok res) :
     ∀ x, x ∈ res ↔ TransGen (Succ next) s x := by
   intro x
